@@ -61,3 +61,12 @@ Definition optimize_stmts0 (defs : nat -> option (nat * expr)) (pc : nat) (ss : 
 
 Definition emit (e : expr) : expr := Call (Value (VPrim fn_emit)) [e].
 Definition st0 (locals mods : frame) : state W0 := {| locals := locals; modules := mods; world := [] |}.
+
+(* an instance whose slice with all bounds absent is the identity on strings (as in Starlark) *)
+Definition ops1 : ops := {|
+  o_un := o_un ops0; o_bin := o_bin ops0;
+  o_slice := fun a lo hi st => match a, lo, hi, st with
+                               | VStr s, VNone, VNone, VNone => CV (VStr s)
+                               | _, _, _, _ => CErr "unsupported slice" end;
+  o_spec := o_spec ops0; o_pct := o_pct ops0
+|}.
